@@ -97,6 +97,37 @@ def run_shard(spec):
         res["distinct"].append("s" + repr(chunks))
         if i < 2:
             res["samples"].append(case)
+    # 3b. the same directive text in several contexts: <n> codes given by a file-private symbol that differs from file to file, by '.'
+    #     relative to a label, by a constant defined after the use; the same quoted chunks next to them
+    for i in range(40 if spec["tier"] == "quick" else 400):
+        nf = rnd.choice([1, 2, 3])
+        shared = _case_mix(rnd, "".join(rnd.choice(ALPHABET) for _ in range(rnd.randrange(0, 5))))
+        files = []
+        for f in range(nf):
+            x = rnd.randrange(40)
+            n_dir = rnd.randrange(1, 4)
+            lines = [[".link 2000"] if f == 0 else []][0]
+            late = rnd.random() < 0.5
+            if not late:
+                lines.append(f"x = {x}.")
+            lines.append(f"t{f}:")
+            exp_codes = []
+            for d in range(n_dir):
+                # every directive: "shared" <x> <.-tF> : '.' is the address of the directive = 2 words per earlier directive
+                k = len(shared) + 2
+                k3 = k + (-k) % 3
+                here = d * (k3 // 3) * 2
+                lines.append(f'\t.rad50 "{shared}" <x> <.-t{f}>')
+                exp_codes.append([ALPHABET.index(c.upper()) for c in shared] + [x, here])
+            if late:
+                lines.append(f"x = {x}.")
+            files.append({"name": f"/c15/f{f}.mac", "text": "\n".join(lines) + "\n", "codes": exp_codes})
+        case = {"kind": "ctx", "files": files}
+        if all(c < 40 for f in files for d in f["codes"] for c in d):
+            res["violations"].extend(run_case(case, cnt))
+            cnt["context_programs"] = cnt.get("context_programs", 0) + 1
+            res["evaluations"] += 1
+            res["distinct"].append("ctx" + repr([(f["codes"]) for f in files]))
     # 4. rejections: every non-alphabet printable ASCII char, <n> 40..63 (+ some larger), over-long ^R
     rej = []
     if part == 0:
@@ -195,6 +226,15 @@ def run_case(case, cnt=None):
             if g != e or unpack(g) != l.upper().ljust(3):
                 viol(f"^R{l}: got {g:#o} (unpacks to {unpack(g)!r}), expected {e:#o}")
                 break
+    elif kind == "ctx":
+        o = asm.assemble([(f["name"], f["text"]) for f in case["files"]])
+        exp = b"".join(w.to_bytes(2, "little") for f in case["files"] for d in f["codes"] for w in _expect_words(d))
+        if o.cls != "ok":
+            viol(f"valid .rad50 program (codes from symbols and '.') rejected: {o.brief()}; files {[f['text'] for f in case['files']]}")
+        elif o.code != exp:
+            viol(f"same '.rad50' text in different contexts: got {o.code.hex()}, expected {exp.hex()}; files {[f['text'] for f in case['files']]}")
+        elif cnt is not None:
+            cnt["words_unpacked"] += len(exp) // 2
     elif kind == "str":
         parts = []
         codes = []
